@@ -825,7 +825,7 @@ func c13(c *Ctx) {
 	q <- os.Interrupt
 	select {
 	case <-listenDone:
-	case <-time.After(5 * time.Second):
+	case <-liveAfter(5 * time.Second):
 		c.Res.Inconcl("listener over the in-memory driver did not stop")
 	}
 	if lst.errs > 0 {
